@@ -80,3 +80,4 @@ package r1
 //@   ghost p float64
 //@   requires vcOK(i) && !vcIsNaN(p) && margin >= 0 && margin <= 1e300
 //@   ensures [kept] i.Contains(p) ==> result.Contains(p)
+//@   ensures [empty-stays-empty] i.IsEmpty() ==> result.IsEmpty()
